@@ -1335,15 +1335,23 @@ def C05_origin (c : Cfg) : Prop :=
       sessionClocksA c F.fl a (D.toGrid.s F) (label F D.toGrid n) (D.toGrid.h F) calls
         = labelsTo F D.toGrid (min calls (n + 1))
 
-/-- **C05 at full strength**: the abstract-grid statement, the statement through the code's own precision, and the
-origin of the session grid. -/
-def C05_full (c : Cfg) : Prop := C05_grid c ∧ C05_code c ∧ C05_origin c
+/-- **run specs of the scenario** (wave 6): the first run of a scenario whose run specs (written grid `D`, `n` steps)
+differ from the model's — whatever step `hOld` the model was built with — reports exactly the labels of the SCENARIO's
+grid: the grid is generated from the same (start, dt) that `Model.memoize` normalises with. -/
+def C05_runspecs (c : Cfg) : Prop :=
+  ∀ (F : Fl), F.u * 10 ^ 14 ≤ 1 / 4 → ∀ (D : DGrid) (n : ℕ) (r : ℚ), Budget F D.toGrid (n + 1) r →
+    ∀ fuel, n + 2 ≤ fuel → ∀ hOld : ℚ,
+      runTimesRS c F.fl fuel (D.toGrid.s F) (label F D.toGrid n) hOld (D.toGrid.h F) = some (labelsTo F D.toGrid (n + 1))
+
+/-- **C05 at full strength**: the abstract-grid statement, the statement through the code's own precision, the
+origin of the session grid, and the run specs a run's grid is generated from. -/
+def C05_full (c : Cfg) : Prop := C05_grid c ∧ C05_code c ∧ C05_origin c ∧ C05_runspecs c
 
 theorem C05_grid_of_good (c : Cfg) (h : c.good = true) : C05_grid c := by
   have h' : c.simBoundInclusive = true ∧ c.plotBoundInclusive = true ∧ c.stepClockNormalised = true := by
     unfold Cfg.good at h
     simp only [Bool.and_eq_true] at h
-    exact ⟨h.1.1.1, h.1.1.2, h.1.2⟩
+    exact ⟨h.1.1.1.1, h.1.1.1.2, h.1.1.2⟩
   obtain ⟨h1, h2, h3⟩ := h'
   intro F G n r B fuel hf
   refine ⟨?_, ?_, ?_, ?_, ?_⟩
@@ -1357,7 +1365,7 @@ theorem C05_code_of_good (c : Cfg) (h : c.good = true) : C05_code c := by
   have h' : c.simBoundInclusive = true ∧ c.plotBoundInclusive = true ∧ c.stepClockNormalised = true := by
     unfold Cfg.good at h
     simp only [Bool.and_eq_true] at h
-    exact ⟨h.1.1.1, h.1.1.2, h.1.2⟩
+    exact ⟨h.1.1.1.1, h.1.1.1.2, h.1.1.2⟩
   obtain ⟨h1, h2, h3⟩ := h'
   intro F hu D n r B fuel hf
   have hp := precOf_float F hu D
@@ -1379,15 +1387,25 @@ theorem C05_origin_of_good (c : Cfg) (h : c.good = true) : C05_origin c := by
   have h3 : c.stepClockNormalised = true ∧ c.sessionOriginEffective = true := by
     unfold Cfg.good at h
     simp only [Bool.and_eq_true] at h
-    exact ⟨h.1.2, h.2⟩
+    exact ⟨h.1.1.2, h.1.2⟩
   intro F hu D n r B a ha calls
   have hp := precOf_float F hu D
   unfold sessionClocksA sessionOrigin effStart
   rw [if_pos h3.2, if_pos ha, hp]
   exact session_clocks_spec c h3.1 F D.toGrid n r B calls
 
+theorem C05_runspecs_of_good (c : Cfg) (h : c.good = true) : C05_runspecs c := by
+  have hg : c.runGridUsesModelDt = true := by
+    unfold Cfg.good at h
+    simp only [Bool.and_eq_true] at h
+    exact h.2
+  intro F hu D n r B fuel hf hOld
+  unfold runTimesRS
+  rw [if_pos hg]
+  exact (C05_code_of_good c h F hu D n r B fuel hf).2.2.1
+
 theorem C05_full_of_good (c : Cfg) (h : c.good = true) : C05_full c :=
-  ⟨C05_grid_of_good c h, C05_code_of_good c h, C05_origin_of_good c h⟩
+  ⟨C05_grid_of_good c h, C05_code_of_good c h, C05_origin_of_good c h, C05_runspecs_of_good c h⟩
 
 /-- What holds whatever the probes say: `util.timerange` itself (inclusive and exclusive), the memo key and the
 strict order of the labels do not depend on the three call sites. -/
@@ -1465,10 +1483,10 @@ theorem budget_W : Budget flW G01 4 (1/500) := by
 
 /-- the hypotheses of `C05_full` are satisfiable by a rounding that is not exact (non-vacuity), and on
 it the repaired variant does produce the grid `label 0 … label 3`. -/
-example : simTimes ⟨true, true, true, true⟩ flW.fl 5 (G01.s flW) (label flW G01 3) (G01.h flW) G01.p
+example : simTimes ⟨true, true, true, true, true⟩ flW.fl 5 (G01.s flW) (label flW G01 3) (G01.h flW) G01.p
     = some [0, 1001/10000, 2/10, 3/10] := by decide +kernel
 
-example : C05_full ⟨true, true, true, true⟩ := C05_full_of_good _ (by decide)
+example : C05_full ⟨true, true, true, true, true⟩ := C05_full_of_good _ (by decide)
 
 /-- the written grid `0.3, 0.4, 0.5, …` (a start time that is not a binary fraction): the hypotheses of `C05_code`
 are satisfiable, and the code's precision on it is 1. -/
@@ -1495,7 +1513,7 @@ example : Budget Fl.exact D03.toGrid 4 0 ∧ InnerOK Fl.exact D03.toGrid 4 ∧
   · simp [Fl.exact]; exact pow10_pos _
   · unfold Written DecStr.abs Grid.g; simp [D03, DGrid.toGrid]; norm_num
 
-example : C05_code ⟨true, true, true, true⟩ := C05_code_of_good _ (by decide)
+example : C05_code ⟨true, true, true, true, true⟩ := C05_code_of_good _ (by decide)
 
 
 /-- bare `step + dt` as session clock: with the rounding `flW` the third clock value is `0.2002`, not the
@@ -1503,11 +1521,11 @@ label `0.2`. -/
 theorem C05_witness_session (c : Cfg) (h : c.stepClockNormalised = false) : ¬ C05_full c := by
   intro hf
   have h3 := (hf.1 flW G01 3 (1/500) budget_W 5 (by norm_num)).2.2.1 3
-  rcases c with ⟨a, b, d, o⟩
+  rcases c with ⟨a, b, d, o, g⟩
   simp only at h
   subst h
   revert h3
-  cases a <;> cases b <;> cases o <;> decide +kernel
+  cases a <;> cases b <;> cases o <;> cases g <;> decide +kernel
 
 /-- `until + dt` as exclusive bound of the batch run: with `flW`, `0.2 + 0.1001 = 0.3001 > 0.3`, a fourth row. -/
 theorem C05_witness_simBound (c : Cfg) (h : c.simBoundInclusive = false) : ¬ C05_full c := by
@@ -1518,11 +1536,11 @@ theorem C05_witness_simBound (c : Cfg) (h : c.simBoundInclusive = false) : ¬ C0
       lt_of_le_of_lt (Derr_mono _ _ _ _ _ _ _ flW.u_nonneg B.h_pos G01.H_pos (by norm_num)) B.hD,
       by have := B.hR; simp only [Grid.M, flW, G01] at this ⊢; norm_num at this ⊢; linarith,
       by simp only [Grid.M, flW, G01]; norm_num⟩) 4 (by norm_num)).1
-  rcases c with ⟨a, b, d, o⟩
+  rcases c with ⟨a, b, d, o, g⟩
   simp only at h
   subst h
   revert h3
-  cases b <;> cases d <;> cases o <;> decide +kernel
+  cases b <;> cases d <;> cases o <;> cases g <;> decide +kernel
 
 /-- the same bound in `Element.plot`. -/
 theorem C05_witness_plotBound (c : Cfg) (h : c.plotBoundInclusive = false) : ¬ C05_full c := by
@@ -1533,11 +1551,11 @@ theorem C05_witness_plotBound (c : Cfg) (h : c.plotBoundInclusive = false) : ¬ 
       lt_of_le_of_lt (Derr_mono _ _ _ _ _ _ _ flW.u_nonneg B.h_pos G01.H_pos (by norm_num)) B.hD,
       by have := B.hR; simp only [Grid.M, flW, G01] at this ⊢; norm_num at this ⊢; linarith,
       by simp only [Grid.M, flW, G01]; norm_num⟩) 4 (by norm_num)).2.1
-  rcases c with ⟨a, b, d, o⟩
+  rcases c with ⟨a, b, d, o, g⟩
   simp only at h
   subst h
   revert h3
-  cases a <;> cases d <;> cases o <;> decide +kernel
+  cases a <;> cases d <;> cases o <;> cases g <;> decide +kernel
 
 
 /-- the written grid `0.25, 0.75, 1.25, …`: a start that is not a multiple of dt and has more decimals than dt. -/
@@ -1576,19 +1594,68 @@ argument 0.0 — the second clock value is `normalize(0.75, base 0.5, offset 0, 
 theorem C05_witness_sessionOrigin (c : Cfg) (h : c.sessionOriginEffective = false) : ¬ C05_full c := by
   intro hf
   by_cases hs : c.stepClockNormalised = true
-  · have h3 := hf.2.2 Fl.exact (by simp [Fl.exact]) D25 2 0 budget_D25 0 (by simp [Grid.s, Fl.exact, D25, DGrid.toGrid]) 3
+  · have h3 := hf.2.2.1 Fl.exact (by simp [Fl.exact]) D25 2 0 budget_D25 0 (by simp [Grid.s, Fl.exact, D25, DGrid.toGrid]) 3
     have e1 : D25.toGrid.h Fl.exact = 1 / 2 := rfl
     have e2 : D25.toGrid.s Fl.exact = 1 / 4 := rfl
     unfold sessionClocksA sessionOrigin effStart at h3
     rw [h, e1, e2] at h3
     simp only [Bool.false_eq_true, if_false] at h3
     rw [precOf_zero_half] at h3
-    rcases c with ⟨a, b, d, o⟩
+    rcases c with ⟨a, b, d, o, g⟩
     simp only at h hs
     subst h; subst hs
     revert h3
-    cases a <;> cases b <;> decide +kernel
+    cases a <;> cases b <;> cases g <;> decide +kernel
   · exact C05_witness_session c (by simpa using hs) hf
+
+
+/-- the written grid `0, 0.1, 0.2, …` (the scenario's run specs) … -/
+def D01 : DGrid where
+  S := 0
+  H := 1 / 10
+  dS := ⟨0, 0, 0, by norm_num, Or.inl rfl, by decide⟩
+  dH := ⟨0, 1, 1, by norm_num, Or.inr (by norm_num), by decide⟩
+  wS := by unfold Written DecStr.abs; norm_num
+  wH := by unfold Written DecStr.abs; norm_num
+  H_pos := by norm_num
+
+/-- … and the grid `0, 0.25, …` of the step the model was built with. -/
+def D025 : DGrid where
+  S := 0
+  H := 1 / 4
+  dS := ⟨0, 0, 0, by norm_num, Or.inl rfl, by decide⟩
+  dH := ⟨0, 25, 2, by norm_num, Or.inr (by norm_num), by decide⟩
+  wS := by unfold Written DecStr.abs; norm_num
+  wH := by unfold Written DecStr.abs; norm_num
+  H_pos := by norm_num
+
+theorem budget_D01 : Budget Fl.exact D01.toGrid 3 0 := by
+  refine ⟨?_, ?_, ?_, ?_, ?_⟩
+  · simp [Grid.h, Fl.exact, D01, DGrid.toGrid]
+  · simp [Qerr, Fl.exact]
+  · simp [Derr, Fl.exact]; exact pow10_pos _
+  · simp [Fl.exact]
+  · simp [Fl.exact, D01, DGrid.toGrid]
+
+theorem precOf_zero_quarter : precOf (0 : ℚ) (1 / 4) = 2 :=
+  precOf_float Fl.exact (by simp [Fl.exact]) D025
+
+/-- **grid generated with a stale dt**: scenario run specs 0 … 0.2 step 0.1 on a model built with dt 0.25 — the first
+run reports `timerange(0, 0.2, 0.25)` = the single row 0 (inclusive bound; `[0, 0.25]` with the old exclusive bound)
+instead of the labels 0, 0.1, 0.2: gaps and, on longer runs, off-grid labels. -/
+theorem C05_witness_runGrid (c : Cfg) (h : c.runGridUsesModelDt = false) : ¬ C05_full c := by
+  intro hf
+  have h3 := hf.2.2.2 Fl.exact (by simp [Fl.exact]) D01 2 0 budget_D01 4 (by norm_num) (1 / 4)
+  have e2 : D01.toGrid.s Fl.exact = 0 := rfl
+  unfold runTimesRS simTimesC at h3
+  rw [h, e2] at h3
+  simp only [Bool.false_eq_true, if_false] at h3
+  rw [precOf_zero_quarter] at h3
+  rcases c with ⟨a, b, d, o, g⟩
+  simp only at h
+  subst h
+  revert h3
+  cases a <;> cases b <;> cases d <;> cases o <;> decide +kernel
 
 /-! The same three facts on IEEE doubles (Lean `Float`, kernel-evaluated; witnesses only — the harness
 replays these numbers on the implementation). -/
@@ -1641,6 +1708,8 @@ theorem budget_nonvacuous :
 #print axioms C05_witness_simBound
 #print axioms C05_witness_plotBound
 #print axioms C05_witness_sessionOrigin
+#print axioms C05_witness_runGrid
+#print axioms C05_runspecs_of_good
 #print axioms C05_origin_of_good
 #print axioms float_witness_session
 #print axioms float_witness_bound
